@@ -457,14 +457,21 @@ fn do_query(storage: &dyn Storage, code_tag: u32) -> StdResult<Binary> {
 }
 
 fn do_query_msg(storage: &dyn Storage, code_tag: u32, q: &PuppetQuery) -> StdResult<Binary> {
-    let v: Vec<(Binary, Binary)> = match q {
-        PuppetQuery::Dump {} => storage.range(None, None, Order::Ascending).map(|(k, v)| (Binary::from(k), Binary::from(v))).collect(),
-        PuppetQuery::Range { start, end, desc, skip } => storage
-            .range(start.as_ref().map(|b| b.as_slice()), end.as_ref().map(|b| b.as_slice()), if *desc { Order::Descending } else { Order::Ascending })
-            .skip(*skip as usize)
-            .map(|(k, v)| (Binary::from(k), Binary::from(v)))
-            .collect(),
+    let (start, end, order, skip) = match q {
+        PuppetQuery::Dump {} => (None, None, Order::Ascending, 0usize),
+        PuppetQuery::Range { start, end, desc, skip } => (start.as_ref().map(|b| b.as_slice()), end.as_ref().map(|b| b.as_slice()), if *desc { Order::Descending } else { Order::Ascending }, *skip as usize),
     };
+    let mut v: Vec<(Binary, Binary)> = storage.range(start, end, order).skip(skip).map(|(k, v)| (Binary::from(k), Binary::from(v))).collect();
+    // the key-only and value-only iterations of the same read-only view list the same records; where they do not,
+    // the answer carries a record no storage ever holds, which every comparison of this answer reports
+    let keys: Vec<Binary> = storage.range_keys(start, end, order).skip(skip).map(Binary::from).collect();
+    let values: Vec<Binary> = storage.range_values(start, end, order).skip(skip).map(Binary::from).collect();
+    if keys != v.iter().map(|(k, _)| k.clone()).collect::<Vec<_>>() {
+        v.push((Binary::from(b"!range_keys lists other keys than range".to_vec()), to_json_binary(&keys)?));
+    }
+    if values != v.iter().filter(|(k, _)| !k.as_slice().starts_with(b"!range_keys lists")).map(|(_, x)| x.clone()).collect::<Vec<_>>() {
+        v.push((Binary::from(b"!range_values lists other values than range".to_vec()), to_json_binary(&values)?));
+    }
     to_json_binary(&(code_tag, v))
 }
 
